@@ -169,16 +169,20 @@ def handleIntMat : Handler
   | ["snf_reduce", h, gens, rows] => do
     let s ← mkSt h gens rows "-"
     some (pst (s.bind (·.reduce)))
-  | ["im_snf_new", rels, _hmin, _hmax, h] => do
+  -- follow-ups of `im_snf_new` / `im_snf`: the lattice index found by the implementation is the input
+  | ["snf_new_model", rels, h] => do
     let rels ← parseSparse rels; let h ← parseNat h
     some (match St.new rels h with
       | none => "panic"
       | some s => s!"{s.h} {showList s.gens} {showMat s.rows}")
-  | ["im_snf", rels, _hmin, _hmax, h] => do
+  | ["snf_pipeline_model", rels, h] => do
     let rels ← parseSparse rels; let h ← parseNat h
-    some (match (St.new rels h).bind (·.reduce) with
+    some (match St.new rels h with
       | none => "panic"
-      | some s => s!"{s.h} {showSt s}")
+      | some s0 =>
+        match s0.reduce with
+        | none => s!"refused-reduce {h}"
+        | some s => s!"{s.h} {showSt s}")
   | _ => none
 
 end Ymq.Drv
